@@ -403,7 +403,14 @@ func c18alone(c c18case, idx int, shape string, v int) []string {
 	var outl []string
 	for _, l := range in.Lines() {
 		if strings.HasPrefix(l, "obs ") && !strings.HasPrefix(l, "obs ret") {
-			outl = append(outl, c18flowNo.ReplaceAllString(strings.TrimPrefix(l, "obs "), "F"))
+			t := c18flowNo.ReplaceAllString(strings.TrimPrefix(l, "obs "), "F")
+			switch t {
+			case "instantiation": // sent on the process's own tracer, not relayed per instance in a set
+				continue
+			case "cease":
+				t = "cease " + id
+			}
+			outl = append(outl, t)
 		}
 	}
 	sort.Strings(outl)
@@ -546,23 +553,18 @@ func c18sub(spec string) {
 	var cw sync.WaitGroup
 	if c.Mode == "conc" {
 		// concurrent waits issued BEFORE completion, from several goroutines
-		res := make([]bool, c.K)
+		s.Op("waitconc %d", c.K)
+		flush()
 		for i := 0; i < c.K; i++ {
 			cw.Add(1)
 			go func(i int) {
 				defer cw.Done()
-				res[i] = s.Wait(3 * time.Second)
+				r := s.Wait(3 * time.Second)
+				s.Note("obs waitconc %d %d", i+1, rec.B(r))
 			}(i)
 		}
-		s.Op("waitconc %d", c.K)
 		s.Quiesce(2 * timeSecond)
 		flush()
-		defer func() {
-			cw.Wait()
-			for i, r := range res {
-				c18say("obs waitconc %d %d", i+1, rec.B(r))
-			}
-		}()
 	}
 	// drive: answer pending tasks one at a time at quiescence, in a seeded order
 	for steps := 0; steps < 60; steps++ {
